@@ -272,6 +272,7 @@ def run(ctx: core.Ctx):
                         if not np.allclose(got, want, rtol=1e-6):
                             ctx.fail("mean_grp accessor", dict(series=s_.tolist(), groups=grp, nodata_arg=nd_arg, nodata_attr=nd_attr, group=g), got.tolist(), want,
                                      note="mean of the cells that are not nodata (the explicit nodata argument takes precedence over the attribute, also when it is 0)")
+    core.acc_dispatch(ctx, ['rollsum', 'meangrp'])
     ctx.trusted += ["native model driver (Hdc/Model/Discrete.lean)", "harness/props/c17.py oracle (NumPy cumulative sums)"]
 
 
